@@ -567,6 +567,42 @@ def case_two_objects(ctx, kind, start, rseed, count, maxlen):
                    sample={"class": kind, "start": start, "interleaved_history": [list(map(repr, d)) for d in done[:10]]})
 
 
+def case_batch_sweep(ctx, kind, sizes, rseed):
+    """add_edges_from with batches of every length in a range (a bulk path may begin at any unremarkable size), valid
+    and with an invalid pair after out-of-order valid ones, followed by single insertions and a removal."""
+    r = ctx.rng("c16batch", kind, rseed, tuple(sizes[:2]))
+    for k in sizes:
+        n = max(6, int((2.2 * k) ** 0.5) + 3)
+        L, R = (n // 2 + 1, n // 2 + 2)
+        batch = []
+        while len(batch) < k:
+            if kind == "bipartite":
+                batch.append((r.randint(1, L), r.randint(1, R)))
+            else:
+                u, v = r.randint(1, n), r.randint(1, n)
+                if u != v or kind == "digraph":
+                    batch.append((u, v))
+        for bad in (False, True):
+            b = list(batch)
+            if bad:
+                b.insert(r.randint(len(b) // 2, len(b)), (0, 1) if kind != "simple" else (r.randint(1, n), n + 1))
+            ops = [("add_edges_from", b)]
+            if kind == "bipartite":
+                ops += [("add_edge", r.randint(1, L), r.randint(1, R)) for _ in range(3)]
+                start = ["BipartiteGraph", L, R]
+            else:
+                ops += [("add_edge", r.randint(1, n), r.randint(1, n)) for _ in range(3)]
+                if kind == "simple" and batch:
+                    ops.append(("remove_edge",) + tuple(batch[0]))
+                start = ["Graph" if kind == "simple" else "DirectedGraph", n]
+            ctx.count("batch_sweep_histories")
+            _Busy.depth += 1            # the per-call class invariants cost O(edges) each: here the views are compared after every operation instead
+            try:
+                run_history(ctx, kind, start, ops)
+            finally:
+                _Busy.depth -= 1
+
+
 def case_repo_tests(ctx):
     """The repository's own tests with the class invariants installed (thorough tier)."""
     import json
@@ -622,6 +658,11 @@ def workload(tier, seed):
         if sum(x for x in start[1:] if isinstance(x, int)) >= 3:
             for b in range(1 if tier == "quick" else 10):
                 yield "two_objects", {"kind": kind, "start": start, "rseed": seed * 1000 + b, "count": 20, "maxlen": 40}
+    sweep = sorted(set(list(range(seed % 23, 1300, 23)) + [999, 1000, 1001, 1023, 1024, 1025, 2048, 4096])) if tier == "quick" else \
+        list(range(0, 2100)) + [4095, 4096, 4097, 10000]
+    for kind in ("simple", "digraph", "bipartite"):
+        for i in range(0, len(sweep), 12):
+            yield "batch_sweep", {"kind": kind, "sizes": sweep[i:i + 12], "rseed": seed}
     batches = 2 if tier == "quick" else 40
     for kind, start in starts:
         for b in range(batches):
